@@ -434,6 +434,10 @@ func init() {
 			runLifeFree(t, rc)
 			return
 		}
+		if rc.Param("mode", "") == "daemon" {
+			runDaemonLifecycle(t, rc)
+			return
+		}
 		runDKGLifecycle(t, rc)
 	}
 }
